@@ -245,6 +245,8 @@ class skyline_lu {
          * end
          */
         void factorize() {
+            if (n == 0) return; // empty matrix: nothing to factorize
+
             precondition(!math::is_zero(D[0]), "Zero diagonal in skyline_lu");
             D[0] = math::inverse(D[0]);
 
